@@ -5,7 +5,7 @@
    leaves what follows untouched.  Unbounded: induction on values. *)
 From DV Require Import Lib.Base Gen.Tables Wire.Body Wire.Message Wire.Byteswap Spec.Codec Wire.HeaderEdit
   Proofs.CodecBasics Proofs.CodecWf Proofs.CodecRoundtrip Proofs.CodecMessage Proofs.BodyCursor Proofs.BodyComplete
-  Proofs.BodySound Proofs.LoaderComplete Proofs.SigRoundtrip Proofs.WireClean.
+  Proofs.BodySound Proofs.LoaderComplete Proofs.SigRoundtrip Proofs.WireClean Proofs.EditProofs Proofs.Utf8Proofs.
 From Coq Require Import ZArith ZifyBool ZifyN ZifyNat Arith.
 Local Open Scope N_scope.
 Ltac Zify.zify_post_hook ::= Z.div_mod_to_equations.
@@ -315,6 +315,12 @@ Proof.
     subst p0. unfold nlen, zeros. cbn [length]. rewrite !app_length. cbn [length]. rewrite !app_length, repeat_length. cbn [length]. lia.
 Qed.
 
+(* one value whose type is a signature type, at any offset, nesting depth and followed by anything *)
+Theorem byteswap_value_correct : forall le v d depth pos rest,
+  wfb le depth pos v = true -> tygood (ty_of_val v) = true -> (height v < d)%nat ->
+  bsv le d (ty_of_val v) pos (enc le v pos ++ rest) = BOk (enc (negb le) v pos, pos + nlen (enc le v pos), rest).
+Proof. intros le v d depth pos rest Hw Hg Hh. apply (bsv_enc le v d depth pos rest Hw); [|exact Hh]. exact (wfb_wire_ok le v depth pos Hw Hg). Qed.
+
 (* ---- D. a sequence of top-level values (a body) -------------------------------------------------- *)
 Lemma wfsb_heights_le le : forall vs depth pos, wfsb le vs depth pos = true -> (heights vs <= 65)%nat.
 Proof.
@@ -485,3 +491,185 @@ Proof.
       exists o. split; [exact Ho|]. rewrite Hs. unfold sig_of_fields. cbn [find].
       change DBUS_HEADER_FIELD_SIGNATURE with 8 in E8. rewrite E8. reflexivity.
 Qed.
+
+Lemma byteswap_at_r_encs le vs depth pos rest : wfsb le vs depth pos = true -> forallb wire_ok vs = true ->
+  byteswap_at_r le (map ty_of_val vs) pos (encs le vs pos ++ rest) = BOk (encs (negb le) vs pos ++ rest).
+Proof. intros Hw Hk. unfold byteswap_at_r. rewrite (byteswap_walk_encs le vs depth pos rest Hw Hk). reflexivity. Qed.
+
+Lemma header_types_eq a b c d x y le fs :
+  header_types = Some (map ty_of_val [VNum 121 a; VNum 121 b; VNum 121 c; VNum 121 d; VNum 117 x; VNum 117 y; fields_val le fs]).
+Proof. reflexivity. Qed.
+
+(* the message converter on a list whose first sixteen bytes are known *)
+Lemma bmr_unfold d bo mt fl ver l0 l1 l2 l3 s0 s1 s2 s3 f0 f1 f2 f3 tl :
+  d = bo :: mt :: fl :: ver :: l0 :: l1 :: l2 :: l3 :: s0 :: s1 :: s2 :: s3 :: f0 :: f1 :: f2 :: f3 :: tl ->
+  byteswap_message_r d =
+  if negb ((bo =? DBUS_LITTLE_ENDIAN) || (bo =? DBUS_BIG_ENDIAN)) then BFault else
+  let old_le := bo =? DBUS_LITTLE_ENDIAN in
+  let body_len := unpack32 old_le (l0, l1, l2, l3) in
+  let fields_len := unpack32 old_le (f0, f1, f2, f3) in
+  let header_len := align_up (16 + fields_len) 8 in
+  match grab header_len d with
+  | None => BFault
+  | Some (hdr, body) =>
+      if negb (nlen body =? body_len) then BFault else
+      bbind (find_signature (S (length hdr)) old_le (16 + fields_len) 16 (skipn 16 hdr)) (fun osig =>
+      match parse_sig (match osig with Some s => s | None => [] end) with
+      | None => BFault
+      | Some tys =>
+          bbind (byteswap_at_r old_le tys 0 body) (fun body' =>
+          bbind (byteswap_header_r old_le hdr) (fun hdr' => BOk (hdr' ++ body')))
+      end)
+  end.
+Proof. intros ->. reflexivity. Qed.
+
+Theorem byteswap_message_r_correct : forall m, wf_msg m = true ->
+  byteswap_message_r (spec_encode_message m) = BOk (spec_encode_message (swap_order m)).
+Proof.
+  intros m Hwf.
+  destruct (wf_msg_inv m Hwf) as (Hmt0 & Hmt & Hfl & Hs0 & Hs & Hwfv & Hfok & Hmand & Hsig & Hparse & Hwb & Hbl & Htot).
+  destruct (wf_msg_wire m Hwf) as [Kf Kb].
+  unfold max_message in *.
+  pose proof (encode_shape m) as HE. pose proof (encode_shape (swap_order m)) as HE'.
+  destruct (wf_fields_val _ _ Hwfv) as [Hwfs Hflen]. fold (m_payload m) in Hflen. fold (m_flen m) in Hflen. unfold max_array in Hflen.
+  (* the other order: same lengths *)
+  assert (Lb : m_blen (swap_order m) = m_blen m) by (unfold m_blen, m_bodyb; cbn [swap_order s_le s_body]; apply encs_len_order).
+  assert (Lf : m_flen (swap_order m) = m_flen m) by (unfold m_flen, m_payload; cbn [swap_order s_le s_fields]; apply encs_len_order).
+  rewrite Lb, Lf in HE'. cbn [swap_order s_le s_type s_flags s_serial] in HE'.
+  set (E := spec_encode_message m) in *. set (E' := spec_encode_message (swap_order m)) in *.
+  set (le := s_le m) in *. set (flen := m_flen m) in *. set (blen := m_blen m) in *. set (bodyb := m_bodyb m) in *.
+  set (payload := m_payload m) in *.
+  set (Z := zeros (pad_amount (16 + flen) 8)) in *.
+  set (Hp := [if le then 108 else 66; s_type m; s_flags m; 1] ++ bytes_of le 4 blen ++ bytes_of le 4 (s_serial m) ++ bytes_of le 4 flen ++ payload) in *.
+  assert (Hhl : m_hlen m = 16 + flen + pad_amount (16 + flen) 8) by reflexivity.
+  assert (Hal : align_up (16 + flen) 8 = m_hlen m) by (rewrite Hhl; apply align_up_pad; lia).
+  assert (HpZ : nlen (Hp ++ Z) = m_hlen m).
+  { subst Hp Z. rewrite !nlen_app, !(bytes_of_length le 4), nlen_zeros. change (nlen payload) with flen.
+    change (nlen [if le then 108 else 66; s_type m; s_flags m; 1]) with 4. rewrite Hhl. lia. }
+  assert (HE2 : E = (Hp ++ Z) ++ bodyb) by (rewrite HE; rewrite <- !app_assoc; reflexivity).
+  destruct (bytes_of_4 le blen) as (a0 & a1 & a2 & a3 & Ea & Ua).
+  destruct (bytes_of_4 le (s_serial m)) as (b0 & b1 & b2 & b3 & Eb & Ub).
+  destruct (bytes_of_4 le flen) as (c0 & c1 & c2 & c3 & Ec & Uc).
+  assert (H16 : E = (if le then 108 else 66) :: s_type m :: s_flags m :: 1 :: a0 :: a1 :: a2 :: a3 :: b0 :: b1 :: b2 :: b3 :: c0 :: c1 :: c2 :: c3 :: (payload ++ Z ++ bodyb)).
+  { rewrite HE2. subst Hp. rewrite Ea, Eb, Ec. cbn [app]. rewrite <- !app_assoc. reflexivity. }
+  assert (Hskip : skipn 16 (Hp ++ Z) = payload ++ Z) by (subst Hp; rewrite Ea, Eb, Ec; reflexivity).
+  rewrite (bmr_unfold E _ _ _ _ _ _ _ _ _ _ _ _ _ _ _ _ _ H16).
+  replace (negb (((if le then 108 else 66) =? DBUS_LITTLE_ENDIAN) || ((if le then 108 else 66) =? DBUS_BIG_ENDIAN))) with false by (destruct le; reflexivity).
+  rewrite bo_le. cbv zeta. rewrite (Ua ltac:(lia)), (Uc ltac:(lia)). rewrite Hal.
+  rewrite HE2. rewrite grab_app by exact HpZ.
+  change (nlen bodyb) with blen. rewrite N.eqb_refl. cbn [negb].
+  (* the body signature *)
+  rewrite Hskip.
+  assert (Kfs : forallb wire_ok (map (enc_field le) (s_fields m)) = true).
+  { unfold fields_val in Kf. cbn [wire_ok] in Kf. apply andb_true_iff in Kf. exact (proj2 Kf). }
+  assert (Hnf : (length (s_fields m) < S (length (Hp ++ Z)))%nat).
+  { pose proof (length_le_encs le _ _ _ Hwfs) as L. rewrite map_length in L. change (nlen (encs le (map (enc_field le) (s_fields m)) 16)) with (nlen payload) in L.
+    assert (nlen payload <= nlen (Hp ++ Z)) by (subst Hp; rewrite !nlen_app; lia). unfold nlen in *. lia. }
+  destruct (find_signature_enc le (s_fields m) (S (length (Hp ++ Z))) 1 16 Z (16 + flen) [] Hnf Hwfs Kfs Hfok ltac:(reflexivity)) as (o & Ho & Hos).
+  change (encs le (map (enc_field le) (s_fields m)) 16) with payload in Ho. rewrite Ho. cbn [bbind]. fold (osig o). rewrite Hos, <- Hsig, Hparse.
+  (* the body *)
+  pose proof (byteswap_at_r_encs le (s_body m) 0 0 [] Hwb Kb) as HB. rewrite !app_nil_r in HB. change (encs le (s_body m) 0) with bodyb in HB.
+  rewrite HB. cbn [bbind].
+  (* the header *)
+  assert (Hbo : (if le then 108 else 66) < 256) by (destruct le; lia).
+  unfold byteswap_header_r.
+  rewrite (header_types_eq (if le then 108 else 66) (s_type m) (s_flags m) 1 blen (s_serial m) le (s_fields m)).
+  set (hv := [VNum 121 (if le then 108 else 66); VNum 121 (s_type m); VNum 121 (s_flags m); VNum 121 1; VNum 117 blen; VNum 117 (s_serial m); fields_val le (s_fields m)]).
+  assert (HpE : Hp = encs le hv 0).
+  { subst hv Hp. rewrite encs_hdr by lia. rewrite enc_fields_val. reflexivity. }
+  assert (Hwh : wfsb le hv 0 0 = true) by (apply wfsb_hdr; try lia; exact Hwfv).
+  assert (Hkh : forallb wire_ok hv = true) by (subst hv; cbn [forallb wire_ok]; rewrite Kf; reflexivity).
+  rewrite HpE. rewrite (byteswap_at_r_encs le hv 0 0 Z Hwh Hkh). cbn [bbind].
+  subst hv. rewrite encs_hdr by lia. change (fields_val le (s_fields m)) with (fields_val (negb le) (s_fields m)).
+  rewrite (enc_fields_val (negb le)). cbn [app].
+  (* assemble *)
+  change (if le then DBUS_BIG_ENDIAN else DBUS_LITTLE_ENDIAN) with (if le then 66 else 108).
+  replace (if le then 66 else 108) with (if negb le then 108 else 66) by (destruct le; reflexivity).
+  change (map (enc_field (negb le)) (s_fields m)) with (map (enc_field le) (s_fields m)).
+  assert (Lp : nlen (encs (negb le) (map (enc_field le) (s_fields m)) 16) = flen) by (unfold flen, m_flen, m_payload; apply encs_len_order).
+  rewrite Lp. cbn [bbind app]. f_equal. rewrite HE'. unfold m_payload, m_bodyb. cbn [swap_order s_le s_fields s_body].
+  change (map (enc_field (negb le)) (s_fields m)) with (map (enc_field le) (s_fields m)).
+  cbn [app]. rewrite <- !app_assoc. reflexivity.
+Qed.
+
+Theorem byteswap_message_correct : forall m, wf_msg m = true ->
+  byteswap_message (spec_encode_message m) = Some (spec_encode_message (swap_order m)).
+Proof. intros m H. unfold byteswap_message. rewrite (byteswap_message_r_correct m H). reflexivity. Qed.
+
+(* ---- F. corollaries ---------------------------------------------------------------------------------- *)
+Lemma encode_len_swap m : nlen (spec_encode_message (swap_order m)) = nlen (spec_encode_message m).
+Proof.
+  rewrite !encode_len. unfold m_hlen, m_flen, m_blen, m_payload, m_bodyb. cbn [swap_order s_le s_fields s_body].
+  change (map (enc_field (negb (s_le m))) (s_fields m)) with (map (enc_field (s_le m)) (s_fields m)).
+  rewrite (encs_len_order (map (enc_field (s_le m)) (s_fields m)) (negb (s_le m)) (s_le m)).
+  rewrite (encs_len_order (s_body m) (negb (s_le m)) (s_le m)). reflexivity.
+Qed.
+
+(* converting twice gives the original bytes back *)
+Corollary byteswap_message_involutive : forall m, wf_msg m = true ->
+  match byteswap_message (spec_encode_message m) with
+  | Some b => byteswap_message b = Some (spec_encode_message m)
+  | None => False
+  end.
+Proof.
+  intros m H. rewrite (byteswap_message_correct m H).
+  rewrite (byteswap_message_correct (swap_order m)) by (rewrite wf_msg_swap; exact H).
+  rewrite swap_involutive. reflexivity.
+Qed.
+
+Corollary byteswap_message_length : forall m b, wf_msg m = true ->
+  byteswap_message (spec_encode_message m) = Some b -> nlen b = nlen (spec_encode_message m).
+Proof. intros m b H E. rewrite (byteswap_message_correct m H) in E. injection E as <-. apply encode_len_swap. Qed.
+
+(* the converted bytes are a valid message per the specification decoder: the same abstract message in
+   the other byte order -- every header field and body value unchanged *)
+Corollary byteswap_message_decodes : forall m b, wf_msg m = true ->
+  byteswap_message (spec_encode_message m) = Some b ->
+  spec_decode_message b = Some (swap_order m, nlen b) /\
+  s_fields (swap_order m) = s_fields m /\ s_body (swap_order m) = s_body m /\ s_sig (swap_order m) = s_sig m /\
+  s_type (swap_order m) = s_type m /\ s_flags (swap_order m) = s_flags m /\ s_serial (swap_order m) = s_serial m /\
+  s_le (swap_order m) = negb (s_le m).
+Proof.
+  intros m b H E. rewrite (byteswap_message_correct m H) in E. injection E as <-.
+  split; [apply message_roundtrip; rewrite wf_msg_swap; exact H|]. repeat split.
+Qed.
+
+(* ... and whatever valid message the specification decoder reads from bytes, the converter turns those bytes
+   into the encoding of the same message in the other order *)
+Corollary byteswap_decoded : forall d m, all_bytes d = true -> spec_decode_message d = Some (m, nlen d) ->
+  byteswap_message d = Some (spec_encode_message (swap_order m)).
+Proof.
+  intros d m Hb Hd. destruct (proj1 (spec_decode_iff d m Hb) Hd) as [-> Hwf]. apply byteswap_message_correct. exact Hwf.
+Qed.
+
+(* ---- G. non-vacuity: concrete messages, both directions, by computation ----------------------------- *)
+(* an empty a{sv} (whose 8-byte element alignment padding is present although there is no element)
+   followed by an int32 *)
+Definition ex_swap1 : smsg :=
+  build true 4 0 7 [ESet 1 (VStr 111 [47;97]); ESet 2 (VStr 115 [97;46;98]); ESet 3 (VStr 115 [83])]
+        [VArr (TDict 115 TVariant) []; VNum 105 16909060].
+(* a variant holding an array of structs, then 16- and 64-bit values after an odd-length string *)
+Definition ex_swap2 : smsg :=
+  build false 1 1 258 [ESet 1 (VStr 111 [47]); ESet 3 (VStr 115 [77]); ESet 6 (VStr 115 [58;49;46;53])]
+        [VVar (TArray (TStruct [TBasic 105; TBasic 120])) (VArr (TStruct [TBasic 105; TBasic 120]) [VStruct [VNum 105 1; VNum 120 2]; VStruct [VNum 105 3; VNum 120 4]]);
+         VStr 115 [104;105;33]; VNum 110 258; VArr (TBasic 113) [VNum 113 258; VNum 113 772; VNum 113 1286]; VNum 116 72623859790382856].
+
+Example ex_swap1_wf : wf_msg ex_swap1 = true. Proof. vm_compute. reflexivity. Qed.
+Example ex_swap2_wf : wf_msg ex_swap2 = true. Proof. vm_compute. reflexivity. Qed.
+Example ex_swap1_le_to_be : byteswap_message (spec_encode_message ex_swap1) = Some (spec_encode_message (swap_order ex_swap1)).
+Proof. vm_compute. reflexivity. Qed.
+Example ex_swap1_be_to_le : byteswap_message (spec_encode_message (swap_order ex_swap1)) = Some (spec_encode_message ex_swap1).
+Proof. vm_compute. reflexivity. Qed.
+Example ex_swap2_be_to_le : byteswap_message (spec_encode_message ex_swap2) = Some (spec_encode_message (swap_order ex_swap2)).
+Proof. vm_compute. reflexivity. Qed.
+Example ex_swap2_le_to_be : byteswap_message (spec_encode_message (swap_order ex_swap2)) = Some (spec_encode_message ex_swap2).
+Proof. vm_compute. reflexivity. Qed.
+(* the tail of the first example's body in both orders: length word 0, four bytes of padding, the int32 *)
+Example ex_swap1_body_bytes :
+  encs true (s_body ex_swap1) 0 = [0;0;0;0; 0;0;0;0; 4;3;2;1] /\
+  byteswap_body true (map ty_of_val (s_body ex_swap1)) (encs true (s_body ex_swap1) 0) = Some [0;0;0;0; 0;0;0;0; 1;2;3;4].
+Proof. vm_compute. split; reflexivity. Qed.
+(* faults are explicit: truncated data, a type code that is not a type *)
+Example ex_swap_fault_truncated : byteswap_body true [TBasic 105] [1; 2; 3] = None. Proof. reflexivity. Qed.
+Example ex_swap_fault_typecode : byteswap_body true [TBasic 114] [1; 2; 3; 4; 5; 6; 7; 8] = None. Proof. reflexivity. Qed.
+Example ex_swap_fault_message : byteswap_message [108; 1; 0; 1; 0; 0; 0; 0; 1; 0; 0; 0; 9; 0; 0; 0; 1; 2] = None. Proof. vm_compute. reflexivity. Qed.
